@@ -532,6 +532,7 @@ func EncodeURL(b []byte, table [256]bool) []byte {
 			b[i+0] = '%'
 			b[i+1] = "0123456789ABCDEF"[c>>4]
 			b[i+2] = "0123456789ABCDEF"[c&15]
+			i += 2
 		}
 	}
 	return b
